@@ -192,8 +192,11 @@ def batches(trace, index, w, tag):
         for i, line in enumerate(f, 1):
             k = starts.get(i)
             probe = line if len(line) < 20000 else line[:2000] + line[-2000:]      # (meta sits at an end of the line)
-            if k and '"ref":' in probe and '"ref":0' not in probe:
-                refs[k] = json.loads(line).get("meta", {}).get("ref", 0) or 0
+            if k and (('"ref":' in probe and '"ref":0' not in probe) or '"solo":' in probe):
+                meta = json.loads(line).get("meta", {})
+                named = [meta.get("ref", 0) or 0] + [v for v in (meta.get("solo") or {}).values() if isinstance(v, int)]
+                named = [v for v in named if v > 0]
+                refs[k] = min(named) if named else 0        # the earliest trace this one names (reference, twin, solo runs)
             pos += len(line)
             if i in ends:
                 endbyte[ends[i]] = pos
@@ -218,10 +221,12 @@ def batches(trace, index, w, tag):
                     line = f.readline(); cur += 1
                     if cur < a0:
                         continue
-                    if k0 > 1 and '"ref":' in line and '"ref":0' not in line:
+                    if k0 > 1 and (('"ref":' in line and '"ref":0' not in line) or '"solo":' in line):
                         r = json.loads(line)
                         if r.get("meta", {}).get("ref"):
                             r["meta"]["ref"] -= k0 - 1
+                        if isinstance(r.get("meta", {}).get("solo"), dict):
+                            r["meta"]["solo"] = {a: (v - (k0 - 1) if isinstance(v, int) and v > 0 else v) for a, v in r["meta"]["solo"].items()}
                         line = json.dumps(r, separators=(",", ":")) + "\n"
                     o.write(line)
             json.dump([[a - a0 + 1, b - a0 + 1] for a, b in idx[k0 - 1:k1]], open(ip, "w"))
